@@ -47,7 +47,7 @@ class SaveCrashScenario(PersistScenario):
 
     def weights(self, rng):
         return {"set": 5, "assign_sub": 1, "load_tree": 1, "lop": 2, "dop": 1, "dyn": 0.5, "save": 2.5, "crash_save": 3.5,
-                "restart_load": 0.7}
+                "restart_load": 2.2}
 
     def header(self, seed, avoid):
         h = super().header(seed, avoid)
